@@ -11,9 +11,9 @@
 (* hist = the step sequence (path enumeration); outside the VIEW.           *)
 EXTENDS GroupLiveness
 
-CONSTANTS MaxOps, MaxPend, MaxWaits, EpochSels, PairSels, WaitModes, ReqServers, EffectiveOnly
-VARIABLES last, nOps, nWaits, hist
-mcvars == <<vars, last, nOps, nWaits, hist>>
+CONSTANTS MaxOps, MaxPend, MaxWaits, MaxParks, EpochSels, PairSels, WaitModes, ReqServers, EffectiveOnly
+VARIABLES last, nOps, nWaits, nParks, hist
+mcvars == <<vars, last, nOps, nWaits, nParks, hist>>
 
 BrokerOrder == <<"a", "b", "c">>      \* the driver uses the same order
 OtherThan(x) == BrokerOrder[CHOOSE i \in 1..Len(BrokerOrder) :
@@ -29,14 +29,17 @@ PairOf(ps) == CASE ps = "cur" -> <<coord, epoch>>
 
 Step(a) == /\ nOps < MaxOps /\ nOps' = nOps + 1 /\ last' = a
            /\ nWaits' = IF a.a = "Wait" THEN nWaits + 1 ELSE nWaits
+           /\ nParks' = IF a.a = "Wait" /\ a.park THEN nParks + 1 ELSE nParks
            /\ hist' = Append(hist, a)
 
 MCInit ==
   /\ exists = FALSE /\ members = {} /\ coord = NoCoord /\ epoch = 0
   /\ tmr = [s \in Servers |-> {}]
   /\ fo = NoFo /\ armed = FALSE /\ good = {} /\ pend = <<>>
+  /\ pendx = {} /\ gen = [m \in Members |-> 0] /\ xgen = [m \in Members |-> 0]
+  /\ taint = FALSE /\ crashed = FALSE
   /\ obs = [a |-> "Open", err |-> ""]
-  /\ last = [a |-> "Open"] /\ nOps = 0 /\ nWaits = 0 /\ hist = <<>>
+  /\ last = [a |-> "Open"] /\ nOps = 0 /\ nWaits = 0 /\ nParks = 0 /\ hist = <<>>
 
 \* c0: only meaningful when the group is created ("none" otherwise)
 MCJoin(srv, m, c0) ==
@@ -53,6 +56,7 @@ MCLeave(srv, m) ==
 
 MCHeartbeat(s, m, es) ==
   /\ exists
+  /\ \A x \in pendx : x[2] # m       \* domain: a member whose expiry is in flight stays silent
   /\ EffectiveOnly => FALSE
   /\ DoHeartbeat(s, m, EpochOf(es))
   /\ Step([a |-> "Heartbeat", s |-> s, m |-> m, es |-> es, e |-> EpochOf(es)])
@@ -77,14 +81,20 @@ MCReportApply(i, pref) ==
   /\ pref = (IF coord' # coord THEN coord' ELSE "none")
   /\ Step([a |-> "ReportApply", i |-> i, pref |-> pref])
 
-MCWait(hb) ==
-  /\ exists /\ pend = <<>> /\ nWaits < MaxWaits
+\* parks = number of periods whose expiries are held in flight
+MCWait(hb, park) ==
+  /\ exists /\ pend = <<>> /\ pendx = {} /\ nWaits < MaxWaits
+  /\ park => (nParks < MaxParks /\ AllFired(hb) # {})
   /\ \A m \in Members : hb[m] \in WaitModes /\ (m \notin members => hb[m] = "none")
-  /\ DoWait(hb)
-  /\ Step([a |-> "Wait", hb |-> hb])
+  /\ DoWait(hb, park)
+  /\ Step([a |-> "Wait", hb |-> hb, park |-> park])
+
+MCExpireApply(s, m) ==
+  /\ DoExpireApply(s, m)
+  /\ Step([a |-> "ExpireApply", s |-> s, m |-> m])
 
 MCLose == exists /\ DoLose /\ Step([a |-> "Lose"])
-MCRestart(s) == exists /\ DoRestart(s) /\ Step([a |-> "Restart", s |-> s])
+MCRestart(s) == exists /\ pendx = {} /\ DoRestart(s) /\ Step([a |-> "Restart", s |-> s])
 
 Prefs == Brokers \cup {"none"}
 
@@ -95,15 +105,19 @@ MCNext ==
   \/ \E srv \in ReqServers, m \in Members, ps \in PairSels, pref \in Prefs : MCReport(srv, m, ps, pref)
   \/ \E m \in Members, ps \in PairSels : MCReportCheck(m, ps)
   \/ \E i \in 1..MaxPend, pref \in Prefs : MCReportApply(i, pref)
-  \/ \E hb \in [Members -> WaitModes] : MCWait(hb)
+  \/ \E hb \in [Members -> WaitModes], park \in BOOLEAN : MCWait(hb, park)
+  \/ \E s \in Servers, m \in Members : MCExpireApply(s, m)
   \/ MCLose
   \/ \E s \in Servers \ {"a"} : MCRestart(s)
 
 MCSpec == MCInit /\ [][MCNext]_mcvars
 
 \* every step, as the code performs it, satisfies what X01 demands of it
+\* (steps at or after the known finding - an expiry in flight that ended a LATER membership of the same
+\* consumer id - are exempt; reachability of the taint is reported separately)
 StepOK ==
   LET a == last' IN
+  taint' \/
   /\ P_Epochs
   /\ CASE a.a = "Join" -> P_Join(a.m)
        [] a.a = "Leave" -> P_Leave(a.m)
@@ -111,12 +125,14 @@ StepOK ==
        [] a.a = "Report" -> P_Report(a.m, a.c, a.e)
        [] a.a = "ReportCheck" -> P_ReportCheck(a.m, a.c, a.e)
        [] a.a = "ReportApply" -> P_ReportApply(a.i)
-       [] a.a = "Wait" -> P_Wait(a.hb)
+       [] a.a = "Wait" -> P_Wait(a.hb, a.park)
+       [] a.a = "ExpireApply" -> P_ExpireApply(a.s, a.m)
        [] a.a = "Restart" -> P_Restart
        [] OTHER -> P_Quiet
 StepsOK == [][StepOK]_mcvars
 
 \* with the history in the view the state graph is the tree of all step sequences
 MCPathView == <<hist, exists, members, coord>>
-MCView == <<exists, members, coord, epoch, tmr, fo, armed, good, pend, nOps, nWaits>>
+MCView == <<exists, members, coord, epoch, tmr, fo, armed, good, pend, pendx, gen, xgen, taint, crashed, nOps, nWaits, nParks>>
+NoTaint == ~taint
 =============================================================================
